@@ -137,16 +137,32 @@ func runHandler(c HandlerCase) kit.Verdict {
 	}
 	// a subscriber is attached some time after the handshake; find out when by
 	// feeding the handler probe frames (our own slices, not the stream's)
+	probesWritten, surplus := 0, -1
 	attached := func() bool {
-		h.Write(probeFrame)
-		for _, s := range subs {
-			if p, _, _, _ := s.state(); p == 0 {
-				return false
+		all := true
+		for si, s := range subs {
+			p, _, _, _ := s.state()
+			if p > probesWritten {
+				surplus = si // more messages than Write calls: no need to wait any longer
+				return true
+			}
+			if p == 0 {
+				all = false
 			}
 		}
-		return true
+		if all {
+			return true
+		}
+		h.Write(probeFrame)
+		probesWritten++
+		return false
 	}
-	if !eventually("handler", attached) {
+	ok := eventually("handler", attached)
+	if surplus >= 0 {
+		p, _, _, _ := subs[surplus].state()
+		return kit.Failf("C19/subscriber-stream/subscribers-"+fmt.Sprint(min(c.Subs, 2))+"/more-messages-than-frames", "subscriber %d of %d received %d websocket messages while only %d frames had been written to the handler (frames meant for another subscriber?)", surplus, len(subs), p, probesWritten)
+	}
+	if !ok {
 		kit.Note("handler", "a case was abandoned because a subscriber received nothing from the handler")
 		kit.Inconclusive("handler")
 		return nil
@@ -223,16 +239,26 @@ func runHandler(c HandlerCase) kit.Verdict {
 	// Close has returned: the stream's writer goroutine has made its last Write
 	want := int(atomic.LoadInt64(&fw.n))
 	arrived := func() bool {
+		all := true
 		for _, s := range subs {
-			if _, _, n, ended := s.state(); n < want && !ended {
-				return false
+			_, _, n, ended := s.state()
+			if n > want {
+				return true // a surplus settles it, see below
+			}
+			if n < want && !ended {
+				all = false
 			}
 		}
-		return true
+		return all
 	}
 	complete := eventually("handler", arrived)
 
 	var fails kit.Verdict
+	for si, s := range subs {
+		if _, _, n, _ := s.state(); n > want {
+			return kit.Failf("C19/subscriber-stream/subscribers-"+fmt.Sprint(min(c.Subs, 2))+"/more-messages-than-frames", "subscriber %d of %d received %d websocket messages, the stream wrote only %d frames to the handler (frames meant for another subscriber?)", si, len(subs), n, want)
+		}
+	}
 	for si, s := range subs {
 		s.mu.Lock()
 		msgs, ended := append([][]byte(nil), s.msgs...), s.ended
@@ -337,7 +363,7 @@ var propHandler = &kit.Prop[HandlerCase]{
 					m.ID, m.IDHex = c.Msgs[m.Of].ID, c.Msgs[m.Of].IDHex
 				}
 			}
-			if !m.Resp {
+			if !m.Resp && m.NoCtx == 0 {
 				reqs = append(reqs, i)
 			}
 			c.Msgs = append(c.Msgs, m)
